@@ -3,7 +3,9 @@
 The directory trees of all scenarios are materialised once (`materialise`, by the parent process, under a
 scratch directory it removes); the populator only reads them, so every behaviour and every worker shares them.
 A scenario may hold several trees: each call reads the one its `root` names (a base tree, then an overlay).
-Special files (rule paths that exist and are neither directory nor regular file) are FIFOs made with os.mkfifo.
+Special files (paths that exist and are neither directory nor regular file - as rule paths, and as ordinary
+entries inside populated directories) are FIFOs made with os.mkfifo or, when their name begins with 'l', symbolic
+links to a target that does not exist.
 Model values: a name is a tuple of dot-separated parts, a path a tuple of names, relative to the tree's root.
 """
 import contextlib
@@ -42,7 +44,10 @@ def materialise(scenarios, base):
                 with open(os.path.join(root, path_str(f, os.sep)), 'w') as fh:
                     fh.write('x')
             for f in tree['specials']:
-                os.mkfifo(os.path.join(root, path_str(f, os.sep)))
+                if f[-1][0].startswith('l'):
+                    os.symlink('no-such-target', os.path.join(root, path_str(f, os.sep)))
+                else:
+                    os.mkfifo(os.path.join(root, path_str(f, os.sep)))
             roots[key] = root
     return roots
 
@@ -113,10 +118,10 @@ class MapsBetween:
 
 
 def candidate_keys(sc):
-    """Every key a file of the tree could be stored under (as is / extension dropped)."""
+    """Every key a file (or a special entry) of the tree could be stored under (as is / extension dropped)."""
     ks = set()
     for tree in sc['trees']:
-        for p in tree['files']:
+        for p in tree['files'] | tree['specials']:
             ks.add(p)
             if len(p[-1]) > 1:
                 ks.add(p[:-1] + (p[-1][:-1],))
